@@ -409,10 +409,59 @@ theorem removeSmallest_spec (b : Bitmap) (h : b.WF) (n : Nat) :
         subst this
         exact ⟨h, by rw [elems_cons]; rfl⟩
 
+/-- `remove_biggest` walks the containers from the back: stated on the reversed directory -/
+theorem removeBiggestRev_spec : ∀ (r : List Container) (n : Nat), WF r.reverse →
+    WF (removeBiggestRev r n).reverse ∧
+    elems (removeBiggestRev r n).reverse = (elems r.reverse).take ((elems r.reverse).length - n) := by
+  intro r
+  induction r with
+  | nil => intro n h; exact ⟨h, by simp [removeBiggestRev, elems]⟩
+  | cons c cs ih =>
+    intro n h
+    rw [List.reverse_cons] at h
+    obtain ⟨hinit, hlt, hck, hcan, hne⟩ := (wf_snoc_iff _ c).mp h
+    have hinv := Store.canon_inv _ hcan
+    have hlen := clen_eq c hinv
+    unfold removeBiggestRev
+    rw [List.reverse_cons, elems_append, elems_single, List.length_append]
+    by_cases h1 : c.len ≤ n
+    · rw [if_pos h1]
+      obtain ⟨i1, i2⟩ := ih (n - c.len) hinit
+      refine ⟨i1, ?_⟩
+      rw [i2, List.take_append_of_le_length (by omega)]
+      congr 1; omega
+    · rw [if_neg h1]
+      by_cases h2 : n > 0
+      · rw [if_pos h2]
+        obtain ⟨r1, r2, r3⟩ := Container.removeBiggest_spec c hcan n (by omega)
+        rw [List.reverse_cons]
+        refine ⟨?_, ?_⟩
+        · rw [wf_snoc_iff]
+          refine ⟨hinit, by rw [r1]; exact hlt, by rw [r1]; exact hck, r2, ?_⟩
+          rw [r3]; intro hnil
+          have := congrArg List.length hnil
+          simp only [List.length_take, List.length_nil] at this
+          rw [← cElems_length] at this; omega
+        · rw [elems_append, elems_single]
+          have e : (elems cs.reverse).length + c.elems.length - n =
+              (elems cs.reverse).length + (c.elems.length - n) := by omega
+          rw [e, List.take_length_add_append]
+          congr 1
+          unfold Container.elems; rw [r1, r3, List.map_take, List.length_map]
+      · rw [if_neg h2]
+        have : n = 0 := by omega
+        subst this
+        rw [List.reverse_cons]
+        refine ⟨h, ?_⟩
+        rw [elems_append, elems_single, List.take_of_length_le (by simp)]
+
 /-- inherent.rs:788 `remove_biggest` for every `n` -/
 theorem removeBiggest_spec (b : Bitmap) (h : b.WF) (n : Nat) :
     (removeBiggest b n).WF ∧ elems (removeBiggest b n) = Spec.removeBiggest (elems b) n := by
-  sorry
+  unfold removeBiggest Spec.removeBiggest
+  have := removeBiggestRev_spec b.reverse n (by rw [List.reverse_reverse]; exact h)
+  rw [List.reverse_reverse] at this
+  exact this
 
 end Bitmap
 end Roaring
